@@ -118,34 +118,10 @@ def check_equation(ctx, case):
             except Exception:
                 ctx.count("skipped:can_apply-raised(C06)")
                 continue
-            ap = E.apply(rule, n)
-            ctx.count("applications")
-            ctx.count(f"applied:{name}:{ap.arrangement}")
-            if ap.error is not None or ap.result_root is None:
-                ctx.count("skipped:apply-raised(C06)")
-                continue
-            res = ap.result_root
-            if A.audit(res) is not None:
-                ctx.count("skipped:malformed-result(C07)")
-                continue
-            if X.has_nonfinite(res):
-                ctx.count("excluded_nonfinite")
-                continue
-            if E.has_huge_constant(res):
-                ctx.count("excluded_huge_constant")
-                continue
-            det = {"tree": text, "rule": name, "arrangement": ap.arrangement, "node": E.text_of(n), "index": idx, "result": E.text_of(res)}
-            vs = A.variables(root) | A.variables(res)
-            assigns = G.assignments(vs, 6)
-            try:
-                verdict, info = Q.compare_equations(ctx, root, res, ap.fresh_consts, assigns, planted, balanced_move=(name == "BM"))
-            except X.Malformed:
-                ctx.count("skipped:unevaluable-structure")
-                continue
-            if verdict != "ok":
-                det.update(info)
-                return ctx.fail((name, ap.arrangement, verdict), case, det)
-            if info.get("solutions", 0) >= 1 and A.sig(res) != src_sig:
+            status, res, det, info = apply_and_judge(ctx, case, name, rule, root, n, idx, text, planted)
+            if status == "fail":
+                return
+            if status == "ok" and info.get("solutions", 0) >= 1 and A.sig(res) != src_sig:
                 ctx.nontriv((case["text"], repr(case.get("pre")), name, idx))
                 ctx.count("nontrivial_applications")
                 if not sampled:
@@ -155,7 +131,78 @@ def check_equation(ctx, case):
                     sampled = True
 
 
+def apply_and_judge(ctx, case, name, rule, root, n, idx, text, planted, extra=None):
+    """Apply `rule` at `n` (on the copy clone_from_root gives) and judge the solution set of the result against `root`.
+    Returns (status, result_root, detail, info) with status 'ok' | 'skipped' | 'fail' (reported)."""
+    ap = E.apply(rule, n)
+    ctx.count("applications")
+    ctx.count(f"applied:{name}:{ap.arrangement}")
+    if ap.error is not None or ap.result_root is None:
+        ctx.count("skipped:apply-raised(C06)")
+        return "skipped", None, None, None
+    res = ap.result_root
+    if A.audit(res) is not None:
+        ctx.count("skipped:malformed-result(C07)")
+        return "skipped", None, None, None
+    if X.has_nonfinite(res):
+        ctx.count("excluded_nonfinite")
+        return "skipped", None, None, None
+    if E.has_huge_constant(res):
+        ctx.count("excluded_huge_constant")
+        return "skipped", None, None, None
+    det = {"tree": text, "rule": name, "arrangement": ap.arrangement, "node": E.text_of(n), "index": idx, "result": E.text_of(res)}
+    if extra:
+        det.update(extra)
+    vs = A.variables(root) | A.variables(res)
+    assigns = G.assignments(vs, 6)
+    try:
+        verdict, info = Q.compare_equations(ctx, root, res, ap.fresh_consts, assigns, planted, balanced_move=(name == "BM"))
+    except X.Malformed:
+        ctx.count("skipped:unevaluable-structure")
+        return "skipped", None, None, None
+    if verdict != "ok":
+        det.update(info)
+        ctx.fail((name, ap.arrangement, verdict), case, det)
+        return "fail", res, det, info
+    return "ok", res, det, info
+
+
+def check_chain(ctx, case):
+    """Two balanced moves in a row with ONE long-lived rule object that is also asked for find_nodes before each move (what
+    a search agent does): every move, first and second, must keep the solution set - whatever the object remembers about
+    nodes or ids of the earlier state (clone_from_root keeps ids) must not matter."""
+    root = E.parse(case["text"])
+    if root is None or not Q.is_equation(root) or X.has_nonfinite(root) or E.has_huge_constant(root):
+        return
+    bm = dict(E.rule_instances())["BM"]
+    ctx.count("chains")
+    try:
+        first = list(bm.find_nodes(root))
+    except Exception:
+        return
+    for n in first[:6]:
+        idx = [id(x) for x in A.inorder(root)].index(id(n))
+        status, res, det, info = apply_and_judge(ctx, case, "BM", bm, root, n, idx, E.text_of(root), None, {"chain_step": 1})
+        if status == "fail":
+            return
+        if status != "ok" or not Q.is_equation(res):
+            continue
+        try:
+            second = list(bm.find_nodes(res))
+        except Exception:
+            continue
+        for m in second[:6]:
+            idx2 = [id(x) for x in A.inorder(res)].index(id(m))
+            st2, res2, det2, info2 = apply_and_judge(ctx, case, "BM", bm, res, m, idx2, E.text_of(res), None, {"chain_step": 2, "first_move": det["node"], "start": E.text_of(root)})
+            if st2 == "fail":
+                return
+            if st2 == "ok" and info2.get("solutions", 0) >= 1:
+                ctx.nontriv(("chain", case["text"], idx, idx2))
+
+
 def replay(ctx, case):
+    if case.get("chain"):
+        return check_chain(ctx, case)
     check_equation(ctx, case)
 
 
@@ -178,4 +225,13 @@ def run(ctx):
         ctx.count("near-miss:cases")
         check_equation(ctx, {"text": t, "pre": [], "family": "near-miss"})
     ctx.info["near_miss_sweep_size"] = f"{len(near)} equations one edit away from a balanced-move template"
+    # two balanced moves in a row with one long-lived rule object, from every equation of the template sweep and its neighbours
+    chain_texts = texts + near
+    cstep = 3 if ctx.tier == "quick" else 1
+    for i, t in enumerate(chain_texts):
+        if i % cstep != ctx.seed % cstep or (i // cstep) % ctx.nshards != ctx.shard:
+            continue
+        ctx.count("evaluations")
+        check_chain(ctx, {"text": t, "chain": True})
     hyp_run(ctx, "equations", equation_case(), check_equation, ctx.n(1500, 10000))
+    hyp_run(ctx, "chains", G.template_text(["BM"]).map(lambda t: {"text": t, "chain": True}), check_chain, ctx.n(400, 3000))
